@@ -3,10 +3,11 @@
 All randomness comes from the random.Random handed in; nothing here iterates over a set or a
 directory listing, so the same seed gives the same world in any interpreter.
 """
+import copy
 import os
 import shlex
 
-from .world import TOP
+from .world import TOP, TOPREL
 
 FLAG_MACROS = ["A", "B", "C"]       # tested with defined()/ifdef only; may be empty-valued
 NUM_MACROS = ["V", "W"]             # may appear in arithmetic; never empty-valued
@@ -20,7 +21,7 @@ BUILD_OUT = "proj/bld"
 BUILD_GONE = "proj/src/build_gone"              # named by entries but never created (a cleaned build tree)
 
 UNKNOWN_FLAGS = ["-fweird", "-Wall", "-std=c99", "-march=native", "-fPIC", "-pthread", "-Wextra"]
-UNKNOWN_COMPILERS = ["mycc", "xlc9", "tool-cc", "/opt/bin/zzcc"]
+UNKNOWN_COMPILERS = ["mycc", "xlc9", "tool-cc", "/opt/bin/zzcc", "gcc-4.8", "nvcc.real", "/opt/x.y/clang.orig"]
 KNOWN_COMPILERS = ["gcc", "g++", "clang", "clang++", "icx", "icpx", "/usr/bin/gcc", "/opt/llvm/bin/clang++", "nvcc"]
 BENIGN_PRAGMAS = ["#pragma omp parallel for", "#pragma GCC diagnostic push", "#pragma unroll 4"]
 PASS_MACROS = ["__CUDA_ARCH__", "__SYCL_DEVICE_ONLY__", "_OPENMP", "__NVCC__", "SYCL_LANGUAGE_VERSION", "__SPIR__",
@@ -199,6 +200,8 @@ def draw_cfg(r, profile):
         "p_variant_twin": r.choice([0.0, 0.2, 0.5]),
         "hdr_name_style": r.choice(["plain", "plain", "odd", "std"]),
         "p_forced_rel": r.choice([0.0, 0.5]),
+        "p_prose": r.choice([0.0, 0.0, 0.15]),
+        "p_abs_include": r.choice([0.0, 0.0, 0.15]),
         "cpp": r.random() < 0.3,
     }
     if profile in ("c04", "c08", "c18", "c15") and r.random() < 0.2:
@@ -227,6 +230,10 @@ def draw_cfg(r, profile):
         c["backslash_commands"] = True
         c["space_dir"] = r.random() < 0.3
         c["spelling"] = "full"
+        c["fsroot_dir"] = r.random() < 0.3
+        # directory names outside the comfortable alphabet (all legal POSIX names: a CR left behind by a CRLF
+        # script, a quote, a hash, a non-ASCII letter)
+        c["odd_src_dir"] = r.choice([None, None, None, "gen\r", "o'dir", "a#b", "g\u00e9n", "nl\nx"])
         c["faults"] = {
             "missing_entry": r.choice([0.0, 0.15, 0.3]),
             "non_source": r.choice([0.0, 0.15, 0.3]),
@@ -246,6 +253,8 @@ def draw_cfg(r, profile):
         c["p_sigdef"] = r.choice([0.0, 0.5, 0.8])
         c["p_probe"] = r.choice([0.3, 0.6])
         c["max_entries_per_platform"] = r.choice([2, 3, 4])
+        # (ignored by the SUT, honoured by a compiler: only for the engine whose oracle is CBI-vs-CBI)
+        c["p_pushpop"] = r.choice([0.0, 0.0, 0.2])
     if profile == "c14":
         c["n_plat"] = r.choice([2, 3, 4, 5])
         c["excludes"] = r.random() < 0.2
@@ -260,6 +269,9 @@ def draw_cfg(r, profile):
         c["decorate"] = True
         c["spelling"] = r.choice(["simple", "full"])
         c["p_dirlink"] = r.choice([0.2, 0.5, 0.8])
+        c["p_abs_include"] = 0.0      # (file bytes must not depend on where the world is materialised: two tops are compared)
+        c["p_xlang_link"] = r.choice([0.0, 0.3, 0.6])
+        c["p_forced_beside"] = r.choice([0.0, 0.15, 0.3])
         c["p_filelink"] = r.choice([0.0, 0.2, 0.5])
         c["p_xfilelink"] = r.choice([0.0, 0.15, 0.4])
         c["p_alias"] = r.choice([0.4, 0.7, 1.0])
@@ -341,6 +353,9 @@ class Gen:
         sp = h["name"]
         if self.cfg["dir_component"] and h.get("dirsp") and r.random() < 0.4:
             sp = r.choice(h["dirsp"])
+        if form == "q" and r.random() < self.cfg.get("p_abs_include", 0.0):
+            # the absolute spelling generated sources use (CMake unity builds, precompiled-header stubs)
+            return [["include", form, TOP + "/" + r.choice(h["paths"])]]
         if form == "m":
             val = f'"{sp}"' if r.random() < 0.6 else f"<{sp}>"
             if "/" in sp and r.random() < 0.3:
@@ -388,6 +403,16 @@ class Gen:
                 out.append(["directive", r.choice(EXEMPT_DIRECTIVES[:2] + EXEMPT_DIRECTIVES[3:])])
             elif k < 0.30:
                 out.append(["code", r.randint(1, 2)])
+                if r.random() < self.cfg.get("p_pushpop", 0.0):
+                    # save/restore pragmas as real code uses them around third-party headers - and as it misuses
+                    # them (a push never popped, a pop without a push)
+                    m = r.choice(FLAG_MACROS)
+                    out.append(["directive", '#pragma %s("%s")' % (r.choice(["push_macro", "pop_macro"]), m)])
+                    if r.random() < 0.5:
+                        out.append(["cond", [["ifdef", m, [["code", 1]]], ["else", None, [["code", 1]]]]])
+                if r.random() < self.cfg.get("p_prose", 0.0):
+                    # a block disabled with #if 0 that holds free text, not C
+                    out.append(["cond", [["if", ["val", 0], [["code", 1, r.randint(0, 4)]]]]])
             elif k < 0.30 + pd:
                 out += self.define_items()
             elif k < 0.30 + pd + pi:
@@ -537,7 +562,7 @@ class Gen:
         # sources
         srcs = []
         for i in range(cfg["n_src"]):
-            d = r.choice(["", "d1", "d2"])
+            d = r.choice(["", "d1", "d2"] + ([cfg["odd_src_dir"]] if cfg.get("odd_src_dir") else []))
             if cfg.get("project_style") and i:
                 d = os.path.relpath(os.path.dirname(srcs[0]), ROOT)
                 d = "" if d == "." else d
@@ -598,6 +623,37 @@ class Gen:
             links, self.alias = self.make_links(files)
             if any(l["kind"] in ("outside", "outside_dir") for l in links) and EXT_DIR not in dirs:
                 dirs.append(EXT_DIR)
+        fb = None
+        if cfg.get("decorate") and r.random() < cfg.get("p_forced_beside", 0.0):
+            # two sub-projects that each keep their own board.h beside their sources and force-include it by bare
+            # name; one source of the second is reached through a file link that lives in the first
+            files[os.path.join(ROOT, "d1", "board.h")] = {"lang": "c", "items": [["code", 1], ["define", "S0", self.src_vals["S0"]]]}
+            files[os.path.join(ROOT, "d2", "board.h")] = {"lang": "c", "items": [["code", 2], ["undef", "A"], ["define", "S1", self.src_vals["S1"]]]}
+            body = [["cond", [["ifdef", "S0", [["code", 1]]], ["else", None, [["code", 2]]]]],
+                    ["cond", [["ifdef", "A", [["code", 1]]]]], ["code", 1]]
+            files[os.path.join(ROOT, "d1", "fb_a.c")] = {"lang": "c", "items": copy.deepcopy(body)}
+            files[os.path.join(ROOT, "d2", "fb_b.c")] = {"lang": "c", "items": copy.deepcopy(body)}
+            lname = r.choice(["aaa_fb_b.c", "zz_fb_b.c"])
+            links.append({"path": os.path.join(ROOT, "d1", lname), "target": "../d2/fb_b.c", "kind": "xfile"})
+            fb = []
+            for nm in ("fb_a.c", lname):
+                f = os.path.join(TOP, ROOT, "d1", nm)
+                fb.append({"file": f, "arguments": ["gcc", "-DA", "-include", "board.h", "-c", f]})
+            r.shuffle(fb)
+        mix = None
+        if cfg["profile"] == "c08" and cfg.get("fortran") and r.random() < 0.3:
+            # a C unit whose force-included configuration header pulls in a table file that is no source file by
+            # name (.def; read on demand, only ever from C), next to a Fortran unit. The table hides a #define in
+            # a C comment: what it means depends on the language it is read in.
+            files[os.path.join(ROOT, "fmix.F90")] = {"lang": "f90", "items": [["code", 2]]}
+            files[os.path.join(ROOT, "cmix.c")] = {"lang": "c", "items": [
+                ["code", 1], ["cond", [["ifdef", "S0", [["code", 1]]], ["else", None, [["code", 2]]]]]]}
+            files[os.path.join(ROOT, "cfgforce.h")] = {"lang": "c", "items": [["code", 1], ["include", "q", "tbl.def"]]}
+            files[os.path.join(ROOT, "tbl.def")] = {"lang": "c", "text": "/* generated table\n#define S0 1\n*/\nint tbl_row;\n"}
+            ff, cf = os.path.join(TOP, ROOT, "fmix.F90"), os.path.join(TOP, ROOT, "cmix.c")
+            mix = [{"file": ff, "arguments": ["gcc", "-c", ff]},
+                   {"file": cf, "arguments": ["gcc", "-include", os.path.join(TOP, ROOT, "cfgforce.h"), "-c", cf]}]
+            r.shuffle(mix)
         # platforms
         plats = []
         inc_pool = [os.path.join(ROOT, d) for d in ["d1", "d2", "inc1", "inc2", "d1/inc", "d2/inc"]]
@@ -622,6 +678,17 @@ class Gen:
             if not ents and r.random() < 0.8:
                 ents.append(self.entry(r.choice(srcs), inc_pool, hdrs))
             ents = self.add_db_faults(ents)
+            if mix:
+                k = len(mix) if pi == cfg["n_plat"] - 1 else r.choice([0, 1, 2, 2])
+                at = r.randint(0, len(ents))
+                ents[at:at] = mix[:k]       # (adjacent when on one platform)
+                mix = mix[k:]
+            if fb:
+                # (on one platform, or spread over two)
+                k = len(fb) if pi == cfg["n_plat"] - 1 else r.choice([0, 1, 2, 2])
+                for e in fb[:k]:
+                    ents.insert(r.randint(0, len(ents)), e)
+                fb = fb[k:]
             if coin and (pi == 0 or r.random() < 0.5):
                 ents.append(self.spell_entry({"src": coin, "defs": [], "incs": [["I", os.path.join(ROOT, "d2")]], "forced": [],
                                               "compiler": "gcc", "extra": []}, alias=getattr(self, "alias", None)))
@@ -666,7 +733,7 @@ class Gen:
             # there first, a compiler looks in its working directory first)
             here = os.path.dirname(src)
             sem["forced"] = [f for f in base["forced"]
-                             if f.startswith(TOP) or os.path.join(here, f) not in self._files]
+                             if f.startswith(TOP) or os.path.normpath(os.path.join(here, f)) not in self._files]
             okh = [x for x in hdrs if x["name"].endswith((".h", ".hpp"))]
             if okh and r.random() < 0.3:
                 # build variants: the same flags, another forced configuration header
@@ -730,7 +797,8 @@ class Gen:
             beside = {os.path.dirname(p) for p in h["paths"]}
             cwds = {ROOT, os.path.join(ROOT, "d1"), os.path.join(ROOT, "d2"), os.path.dirname(src)}
             if via and r.random() < cfg.get("p_forced_rel", 0.0) and not (cwds & beside):
-                forced[-1] = h["name"]
+                # (also with the explicit "./" some build systems write: still a name for the quote chain)
+                forced[-1] = r.choice(["", "", "./"]) + h["name"]
         comp = r.choice(KNOWN_COMPILERS)
         extra = []
         f = cfg["faults"]
@@ -765,6 +833,9 @@ class Gen:
         ab = os.path.join(TOP, target_rel)
         if style == "abs":
             return ab
+        if base_rel is None:
+            # relative to the file system root
+            return ("./" if style == "dot" else "") + TOPREL + "/" + target_rel
         rel = os.path.relpath(target_rel, base_rel)
         if style == "rel":
             return rel
@@ -815,6 +886,13 @@ class Gen:
             if r.random() < self.cfg.get("p_filelink", 0.3):
                 parent, name = os.path.split(f)
                 lp = os.path.join(parent, "fl_" + name)
+                if r.random() < self.cfg.get("p_xlang_link", 0.0):
+                    # the link's own name suggests ANOTHER language than its target's (a C header kept as
+                    # consts.h -> consts.F90, a .c name for a generated .cpp): the physical file decides
+                    stem, ext = os.path.splitext(name)
+                    ext2 = r.choice([".c", ".h"]) if ext in (".F90", ".f90") else r.choice([".F90", ".f90", ".cpp"])
+                    if os.path.join(parent, "fl_" + stem + ext2) not in files:
+                        lp = os.path.join(parent, "fl_" + stem + ext2)
                 links.append({"path": lp, "target": name, "kind": "file"})
                 file_links[f] = lp
         # file links that live in ANOTHER directory than their target (the metamorphic oracle needs no
@@ -892,7 +970,7 @@ class Gen:
         # directory
         if full:
             dmode = r.choice(["none", "absroot", "abs_in", "abs_out", "rel_in", "rel_out", "rel_dot",
-                              "sub_abs", "sub_rel", "sub_rel", "gone"])
+                              "sub_abs", "sub_rel", "sub_rel", "gone"] + (["fsroot"] if cfg.get("fsroot_dir") else []))
         else:
             dmode = r.choice(["none", "none", "absroot"])
         if dmode == "none":
@@ -912,6 +990,11 @@ class Gen:
         elif dmode == "rel_out":
             base = BUILD_OUT
             e["directory"] = os.path.relpath(BUILD_OUT, ROOT)
+        elif dmode == "fsroot":
+            # a build recorded with the file system root as its working directory (container WORKDIR /, make -C /):
+            # everything relative in the command is relative to "/"
+            base = None
+            e["directory"] = "/"
         elif dmode == "gone":
             # the build directory no longer exists; paths relative to it can only be read lexically
             base = BUILD_GONE
